@@ -45,7 +45,11 @@ fn c15_arena<A: Subject>(backend: Backend, allocated: u32, poison: u8, path: Opt
 }
 
 fn c15_arena_u<A: Subject>(backend: Backend, unify: bool, allocated: u32, poison: u8, path: Option<&std::path::PathBuf>) -> A {
-  let cfg = Cfg::new(Fl::Optimistic, backend, unify, 256);
+  c15_arena_c::<A>(backend, unify, allocated, poison, path, 256)
+}
+
+fn c15_arena_c<A: Subject>(backend: Backend, unify: bool, allocated: u32, poison: u8, path: Option<&std::path::PathBuf>, cap: u32) -> A {
+  let cfg = Cfg::new(Fl::Optimistic, backend, unify, cap);
   let a: A = build::<A>(&cfg, path).expect("arena");
   // fill the whole data area with byte-distinct content through one allocation, then rewind
   let mut b = a.alloc_bytes(a.remaining() as u32).unwrap();
@@ -140,8 +144,14 @@ fn c15_flavour<A: Subject>(run: &Run, backend: Backend, thorough: bool) {
 
 /// slice lengths and reader bounds in states reached through clear() and through rewinds beyond the ends
 fn c15_states<A: Subject>(run: &Run, backend: Backend, unify: bool) {
+  c15_states_cap::<A>(run, backend, unify, 256);
+  // a capacity that is a multiple of no alignment
+  c15_states_cap::<A>(run, backend, unify, 253);
+}
+
+fn c15_states_cap<A: Subject>(run: &Run, backend: Backend, unify: bool, capacity: u32) {
   let flav = A::FLAVOUR;
-  let mut hows: Vec<String> = ["clear", "clear+alloc", "rewind-beyond-capacity", "rewind-below-data-offset", "fresh", "full"].iter().map(|s| s.to_string()).collect();
+  let mut hows: Vec<String> = ["clear", "clear+alloc", "rewind-beyond-capacity", "rewind-below-data-offset", "rewind-current-to-1", "rewind-current-to-dof-1", "rewind-current-beyond", "fresh", "full"].iter().map(|s| s.to_string()).collect();
   // allocation calls that just fit / just do not fit into what is left (padded requests at every residue)
   for room in 1..=17u32 {
     for call in ["ab", "t", "b"] {
@@ -150,8 +160,8 @@ fn c15_states<A: Subject>(run: &Run, backend: Backend, unify: bool) {
   }
   for how in hows.iter().map(|s| s.as_str()) {
     let p = if backend == Backend::File { Some(fresh_path("c15s")) } else { None };
-    let a: A = c15_arena_u::<A>(backend, unify, 100, 0xFF, p.as_ref());
-    let case = json!({"engine": "c15", "flavour": flav, "backend": backend, "unify": unify, "state": how});
+    let a: A = c15_arena_c::<A>(backend, unify, 100, 0xFF, p.as_ref(), capacity);
+    let case = json!({"engine": "c15", "flavour": flav, "backend": backend, "unify": unify, "state": how, "capacity": capacity});
     crate::crashguard::set_case(crate::crashguard::head_of(&case));
     let r = std::panic::catch_unwind(std::panic::AssertUnwindSafe(|| {
       match how {
@@ -162,6 +172,10 @@ fn c15_states<A: Subject>(run: &Run, backend: Backend, unify: bool) {
           unsafe { b.detach() };
         }
         "rewind-beyond-capacity" => unsafe { a.rewind(ArenaPosition::Start(256 + 50)) },
+        // relative rewinds that land just above 0 / just below the data offset / beyond the end
+        "rewind-current-to-1" => unsafe { a.rewind(ArenaPosition::Current(1 - a.allocated() as i64)) },
+        "rewind-current-to-dof-1" => unsafe { a.rewind(ArenaPosition::Current(a.data_offset() as i64 - 1 - a.allocated() as i64)) },
+        "rewind-current-beyond" => unsafe { a.rewind(ArenaPosition::Current(1 << 20)) },
         "rewind-below-data-offset" => unsafe { a.rewind(ArenaPosition::Start(0)) },
         "full" => unsafe { a.rewind(ArenaPosition::End(0)) },
         h if h.starts_with("room-") => {
@@ -196,7 +210,7 @@ fn c15_states<A: Subject>(run: &Run, backend: Backend, unify: bool) {
       if al > cap || al < dof {
         bad.push(format!("allocated() = {} outside [data_offset {}, capacity {}]", al, dof, cap));
       }
-      let cfg = Cfg::new(Fl::Optimistic, backend, unify, 256);
+      let cfg = Cfg::new(Fl::Optimistic, backend, unify, capacity);
       if dof != cfg.data_offset() {
         bad.push(format!("data_offset() = {}, layout says {}", dof, cfg.data_offset()));
       }
